@@ -535,6 +535,49 @@ pub fn run_level_b(
             write_file(&root, &f.path, &rendered[i].text);
         }
     }
+    // hard links: a second NAME for a file's inode, under a name blockwatch has no grammar for
+    // (`*.bwdat`: walked, then skipped by name). The real name stays in scope whichever of the two
+    // the directory walk meets first.
+    let mut hard_links = 0usize;
+    // a file that cannot be read as UTF-8 is a read error, never a file without blocks: in worlds
+    // the model expects to FAIL anyway, now and then every file the diff does not mention ends in
+    // a stray Latin-1 byte (the run must still fail, whichever file the malformed rule sits in)
+    let mut latin1_files = 0usize;
+    {
+        let mut r = Rng::new(plan.create_seed ^ 0x11ab_57ee);
+        let stray = matches!(j.expected, Expected::Failed(_)) && r.chance(1, 6);
+        for (i, f) in world.files.iter().enumerate() {
+            if !matches!(f.diff, FileDiff::None) {
+                continue;
+            }
+            let p = root.join(&f.path);
+            let Ok(md) = std::fs::symlink_metadata(&p) else { continue };
+            if !md.file_type().is_file() {
+                continue;
+            }
+            if stray {
+                if let Ok(mut bytes) = std::fs::read(&p) {
+                    bytes.extend_from_slice(b"\n\xe9t\xe9\n");
+                    if std::fs::write(&p, bytes).is_ok() {
+                        latin1_files += 1;
+                    }
+                }
+            }
+            if r.chance(1, 6) {
+                let twin = match r.below(3) {
+                    0 => format!("0-twin{i}.bwdat"),
+                    1 => format!("zz-twin{i}.bwdat"),
+                    _ => match f.path.rsplit_once('/') {
+                        Some((d, _)) => format!("{d}/0-twin{i}.bwdat"),
+                        None => format!("m-twin{i}.bwdat"),
+                    },
+                };
+                if !world.files.iter().any(|o| o.path == twin) && std::fs::hard_link(&p, root.join(&twin)).is_ok() {
+                    hard_links += 1;
+                }
+            }
+        }
+    }
     // a symbolic link to a DIRECTORY is not a file of the repository and nothing behind it is in
     // scope: now and then the tree has a link to a hidden directory holding a file full of
     // violations (also an unbalanced one), and a link back to the root itself (a loop)
@@ -816,6 +859,12 @@ pub fn run_level_b(
         }
         if dir_links > 0 {
             *m.entry("runs_with_symlinked_directories".to_string()).or_default() += 1;
+        }
+        if hard_links > 0 {
+            *m.entry("runs_with_hard_linked_twins".to_string()).or_default() += 1;
+        }
+        if latin1_files > 0 {
+            *m.entry("runs_with_non_utf8_source_files".to_string()).or_default() += 1;
         }
         if git_exclude_used {
             *m.entry("runs_with_rules_in_git_info_exclude".to_string()).or_default() += 1;
